@@ -155,8 +155,7 @@ HolderOnlyP(d, p, lk) == \A t \in Judged(d, p) : lk = t
 \* no driver call runs on a closed device: neither entered after the close (blame: the caller's site) nor
 \* overtaken by a close() of another thread (blame: the close site)
 NotAfterCloseP(d, p, dev) ==
-    /\ \A t \in d : /\ (p[t].late => p[t].site \in Waived)
-                     /\ (p[t].hit # "" => p[t].hit \in Waived)
+    \A t \in Judged(d, p) : ~p[t].late /\ (p[t].hit # "" => p[t].hit \in Waived)
 \* bookkeeping sanity: a thread is in the driver exactly when its pc says so; the lock owner is in a region
 ConsistentP(d, p, lk) ==
     /\ d = {t \in Thread : p[t].site # ""}
